@@ -22,7 +22,7 @@ theorem plain_bare (child : Option ChildFn) (ctx : Ctx) (c : ClsDesc) (hp : Plai
     compileSimple child ctx c word line none none st = .ok { st := st, out := [upper word], sig := .normal } := by
   obtain ⟨h1, h2, h3, h4, h5, h6, h7⟩ := hp
   have hr : (c.argReq == ArgReq.required) = false := by simpa using hreq
-  simp [compileSimple, simplePre, h2, h3, h4, h5, hd, listifyArgs, verifyTypes, verifyArgsHook, h7, verifyEach,
+  simp [compileSimple, simplePre, prepareArgs, checkArgs, itemsOf, nameOf, h2, h3, h4, h5, hd, listifyArgs, verifyTypes, verifyArgsHook, h7, verifyEach,
     multiComp, runCompile, h6, runCompileLocal, defaultEmit, hr]
 
 theorem formatArg_str (c : ClsDesc) (s : Str) (l o : Nat) :
@@ -51,7 +51,7 @@ theorem plain_inline (child : Option ChildFn) (ctx : Ctx) (c : ClsDesc) (hp : Pl
     obtain ⟨fc, fl, fo⟩ := fa
     simp only [Arg.str] at hf
     cases fc <;> simp at hf
-    simp [compileSimple, simplePre, h2, h3, h4, h5, hd, listifyArgs, listifyArgs.go, ha, hs, Arg.str, verifyTypes, typeOk,
+    simp [compileSimple, simplePre, prepareArgs, checkArgs, itemsOf, nameOf, h2, h3, h4, h5, hd, listifyArgs, listifyArgs.go, ha, hs, Arg.str, verifyTypes, typeOk,
       isListVal, verifyArgsHook, h7, verifyEach, hverify, multiComp, runCompile, h6, runCompileLocal, defaultEmit, hr, hfa]
   · simp only [hs, if_true] at hverify
     have hf := formatArg_str c (strip a) line line
@@ -59,7 +59,7 @@ theorem plain_inline (child : Option ChildFn) (ctx : Ctx) (c : ClsDesc) (hp : Pl
     obtain ⟨fc, fl, fo⟩ := fa
     simp only [Arg.str] at hf
     cases fc <;> simp at hf
-    simp [compileSimple, simplePre, h2, h3, h4, h5, hd, listifyArgs, listifyArgs.go, ha, hs, Arg.str, verifyTypes, typeOk,
+    simp [compileSimple, simplePre, prepareArgs, checkArgs, itemsOf, nameOf, h2, h3, h4, h5, hd, listifyArgs, listifyArgs.go, ha, hs, Arg.str, verifyTypes, typeOk,
       isListVal, verifyArgsHook, h7, verifyEach, hverify, multiComp, runCompile, h6, runCompileLocal, defaultEmit, hr, hfa]
 
 end Duckling
